@@ -203,7 +203,7 @@ def load_findings(prop_id: str) -> dict[int, str]:
 
 
 # ----------------------------------------------------------------------------- driver
-class _Hang(Exception):
+class _Hang(BaseException):       # not an Exception: code under test that swallows `Exception` (suppression) must not swallow it
     pass
 
 
@@ -215,7 +215,7 @@ def _guarded(prop, pid, case, limit=90):
     def on_alarm(_s, _f):
         raise _Hang()
     old = signal.signal(signal.SIGALRM, on_alarm)
-    signal.alarm(limit)
+    signal.setitimer(signal.ITIMER_REAL, limit, 5)      # fires again every 5 s should a handler of the code under test swallow it
     try:
         return prop.run_impl(case)
     except _Hang:
@@ -226,7 +226,7 @@ def _guarded(prop, pid, case, limit=90):
         print(f"VIOLATION property={pid} replay={path}")
         sys.exit(1)
     finally:
-        signal.alarm(0)
+        signal.setitimer(signal.ITIMER_REAL, 0)
         signal.signal(signal.SIGALRM, old)
 
 
